@@ -513,7 +513,7 @@ def sprRewardPhase (P : Params) (b : Block) : LM Unit := do
 
 def devRewardPhase (P : Params) (b : Block) : LM Unit := do
   if b.height ≥ P.act.devRewards ∧ b.height % P.snapshotRate = 0 then
-    let _ ← M.swallow (developersPayouts P b.height b.ts)
+    developersPayouts P b.height b.ts
 
 /-- burns, OPR rewards, SPR rewards, developer rewards (sync.go:537-579) -/
 def rewardPhase (P : Params) (b : Block) : LM Unit := do
